@@ -725,6 +725,24 @@ def judge_batch(c):
 JUDGES["batch"] = judge_batch
 
 
+def judge_scale(c):
+    """an operator applied to a large operand gives, bit for bit, what it gives on the operand's pieces
+    (metamorphic; the pieces lie in the region covered by the model correspondence)"""
+    impl = c["impl"]
+    key = ("scale", c.get("stream"), c.get("op"), (c.get("p") or {}).get("n"), impl["status"])
+    if impl["status"] != "ok":
+        return J(corr="skip", verdict="violates", tag=f"scale.{c.get('op')}.{impl['status']}",
+                 what=f"large operand ({(c.get('p') or {}).get('whole_shapes')}): {impl.get('msg','')[:140]}", key=key)
+    r = impl["extra"]
+    if r["mismatches"]:
+        return J(corr="skip", verdict="violates", tag=f"scale.{c.get('op')}.wrong",
+                 what=f"{c.get('op')} on {(c.get('p') or {}).get('whole_shapes')} differs from its {r['pieces']} pieces in {r['mismatches']} elements: {r.get('first','')[:140]}", key=key)
+    return J(corr="skip", verdict="holds", key=key)
+
+
+JUDGES["scale"] = judge_scale
+
+
 def judge_concurrent(c):
     """C17 on the implementation: each goroutine's results equal the sequential baseline"""
     impl = c["impl"]
